@@ -1,5 +1,5 @@
 """C03 -- see DESIGN.md §5 C03. Kernel-level groups (checks/kern.py); IEEE-mode groups in checks/fpgrid.py"""
-from checks import kern, fpgrid
+from checks import kern, fpgrid, modelstep
 
 TECHNIQUE = "symbolic execution of the real integration methods on z3-real proxies with state merging and cuts, plus IEEE-754 (QF_FP) execution of the real grid/keyring size code; SMT obligations (z3, cvc5 portfolio); counterexamples replayed on the unpatched code"
 EXPLANATION = "Same real step; obligations: each recorded flow times max(1, sum of requested fractions) equals stock times the documented fraction (probability/rate p*dt/T, duration dt/(d*T), number N*dt/T over the parameter's total source size, 0 for an empty source), source compartments emit exactly N*dt/T, a number parameter shared by two compartments is split by source size, timed duration-preserving links follow the same rule per row. Bounds: micro-graphs as listed per group; |values| <= 1e9, dt in [1/365,5], timescales in [1e-3,1e3]; real arithmetic (tolerance 1e-9 relative, 1e-8 for C03). Outside: larger fan-outs, float rounding, multi-step interactions other than through the arbitrary pre-state."
@@ -7,10 +7,12 @@ GROUP_TIMEOUT = {"quick": 900, "thorough": 3000}
 
 
 def groups(tier):
-    return kern.kernel_groups("C03", tier) + fpgrid.c03_fp_groups(tier)
+    return kern.kernel_groups("C03", tier) + modelstep.groups("C03", tier) + fpgrid.c03_fp_groups(tier)
 
 
 def replay(rec):
     if rec["replay"].get("group") in ("grid", "keyring"):
         return fpgrid.fp_replay(rec)
+    if rec["replay"].get("group", "").startswith("model["):
+        return modelstep.replay("C03", rec)
     return kern.kernel_replay("C03", rec)
